@@ -309,6 +309,35 @@ def run(repo: Repo, rep: Report, tier: str) -> None:
                 ok = ok or sets == [0x0110]
             rep.check(ok, "n-service", fq, st, "an unencodable reply data set must be answered with 0x0110 (Processing failure)", mod=sc, node=c)
 
+    # the handler's status stands: after validate_status() the SCP may replace it by a constant only for a cause the
+    # documentation names - and the N-CREATE rule "the response needs an Affected SOP Instance UID" (PS3.7
+    # 10.1.5.1.4) applies to a *successful* creation only: a Warning / Failure the handler returned keeps its status,
+    # its comment and its attribute list
+    for nm in nfun:
+        fn = repo.func("service_class", f"ServiceClass.{nm}")
+        fq = f"service_class.ServiceClass.{nm}"
+        vs = [s_ for s_ in walk_no_nested(fn) if isinstance(s_, ast.Assign) and norm(s_.targets[0]) == "rsp" and "validate_status" in norm(s_.value)]
+        if not vs:
+            continue
+        for ov in [s_ for s_ in walk_no_nested(fn) if isinstance(s_, ast.Assign) and norm(s_.targets[0]) == "rsp.Status" and const_int(s_.value) is not None and s_.lineno > vs[0].lineno]:
+            conds = []
+            g = enclosing(ov, (ast.If,))
+            child = ov
+            while g is not None and enclosing(g, (ast.FunctionDef,)) is fn:
+                in_body = any(child is x or any(child is y for y in ast.walk(x)) for x in g.body)
+                t = g.test
+                parts = list(t.values) if isinstance(t, ast.BoolOp) and isinstance(t.op, ast.And) else [t]
+                conds += [(norm(p_), in_body) for p_ in parts]
+                child, g = g, enclosing(g, (ast.If,))
+            texts = [c_ for c_, pol in conds if pol]
+            encode_cause = any(" is None" in c_ or c_.startswith("not ") for c_ in texts) and any("bytestream" in c_ or "encoded" in c_ or "data" in c_.lower() for c_ in texts)
+            uid_cause = any("AffectedSOPInstanceUID" in c_ for c_ in texts) or any("AffectedSOPInstanceUID" in c_ for c_, pol in conds)
+            if uid_cause:
+                okc = any(c_.replace(" ", "") in ("status[0]==STATUS_SUCCESS", "STATUS_SUCCESS==status[0]") for c_ in texts)
+                rep.check(okc, "n-service", fq, ov, f"the handler's status is replaced by {hex(const_int(ov.value))} for a missing Affected SOP Instance UID under {texts}: that requirement holds for a successful N-CREATE only - a Warning (0xB300, 0xB605 ...) or any other non-Failure status the handler returned is answered with 0x0110 and without its attribute list instead of as documented", mod=sc, node=ov)
+            elif not encode_cause:
+                rep.check(False, "n-service", fq, ov, f"after validate_status() the handler's status is replaced by {hex(const_int(ov.value))} under {texts or 'no condition'}: the documented causes for that are an unencodable reply and (N-CREATE, on success) a missing Affected SOP Instance UID", mod=sc, node=ov)
+
     # ---- data flow ------------------------------------------------------------------------------------------------
     DATA_ATTR = {"_n_action_scp": "ActionReply", "_n_create_scp": "AttributeList", "_n_event_report_scp": "EventReply", "_n_get_scp": "AttributeList", "_n_set_scp": "AttributeList", "_c_find_scp": "Identifier"}
     for nm, attr in DATA_ATTR.items():
